@@ -384,3 +384,30 @@ Definition validate_from_partial (f : partial_d) : verdict :=
 Definition validate_dims (dims : list (list nat)) (rank : nat) : verdict :=
   check (length dims =? rank) ValueError ;;
   check (all_eqb Nat.eqb (map (@List.length nat) dims)) ValueError.
+
+(* ------------------------------------------------------------------------------------------- *)
+(* user-supplied arrays for the caches, sizes of the constructed bases, times of propagator_at_arb_t *)
+Definition lastn {A} (n : nat) (l : list A) : list A := rev (firstn n (rev l)).
+(* PulseSequence.cache_control_matrix(omega, control_matrix): shape ([n_pls,] n_nops, n_basis, n_omega) *)
+Definition validate_cache_control_matrix (given : option (list nat)) (n_nops n_basis n_omega : nat) : verdict :=
+  match given with
+  | None => ok
+  | Some s => check (((length s =? 3) || (length s =? 4)) && shape_eqb (lastn 3 s) [n_nops; n_basis; n_omega]) ValueError
+  end.
+(* PulseSequence.cache_filter_function(omega, filter_function=..., which, order) *)
+Definition validate_cache_filter_function (given : option (list nat)) (which : string) (order : nat)
+           (n_nops n_basis n_omega : nat) : verdict :=
+  validate_option which ["fidelity"; "generalized"]%string ;;
+  check ((order =? 1) || (order =? 2)) ValueError ;;
+  match given with
+  | None => ok
+  | Some s => check (shape_eqb s (if (order =? 1) && String.eqb which "fidelity" then [n_nops; n_nops; n_omega]
+                                  else [n_nops; n_nops; n_basis; n_basis; n_omega])) ValueError
+  end.
+(* PulseSequence.cache_total_phases(omega, total_phases) *)
+Definition validate_cache_total_phases (given : option (list nat)) (n_omega : nat) : verdict :=
+  match given with None => ok | Some s => check (shape_eqb s [n_omega]) ValueError end.
+(* Basis.pauli(n), Basis.ggm(d) *)
+Definition validate_basis_size (n : Z) : verdict := check (1 <=? n)%Z ValueError.
+(* PulseSequence.propagator_at_arb_t(t): no time beyond the duration *)
+Definition validate_propagator_times (beyond : list bool) : verdict := check (negb (existsb (fun b => b) beyond)) ValueError.
